@@ -14,13 +14,27 @@ const VALUES: [i64; 3] = [10, 20, 30];
 struct Case {
     values: Vec<i64>,
     k: usize,
+    /// 0: Tournament::new, 1: Tournament::of_size::<K>(), 2: Tournament::binary()
+    ctor: u8,
+}
+
+fn mk_tournament(k: usize, ctor: u8) -> Tournament {
+    match (ctor, k) {
+        (2, 2) => Tournament::binary(),
+        (1, 1) => Tournament::of_size::<1>(),
+        (1, 2) => Tournament::of_size::<2>(),
+        (1, 3) => Tournament::of_size::<3>(),
+        (1, 4) => Tournament::of_size::<4>(),
+        (1, 5) => Tournament::of_size::<5>(),
+        _ => Tournament::new(NonZeroUsize::new(k).unwrap()),
+    }
 }
 
 /// explore one (population, k); returns (leaves, violation)
 fn tournament_case(c: &Case) -> (u64, u64, Option<(String, String)>, usize) {
     let n = c.values.len();
     let pop = mk_pop(&c.values);
-    let sel = Tournament::new(NonZeroUsize::new(c.k).unwrap());
+    let sel = mk_tournament(c.k, c.ctor);
     let m = lcm_upto(n as u128) as u32;
     let mut law: Law<i64> = Law::new();
     let mut pos_law: Law<usize> = Law::new();
@@ -204,7 +218,7 @@ pub fn run(run: &mut Run) {
             let full = n <= 4 || (n == 5 && k <= 3) || (!quick && n == 6 && k <= 2);
             if full {
                 for values in all_value_vectors(n, &VALUES) {
-                    cases.push(Case { values, k });
+                    cases.push(Case { values, k, ctor: 0 });
                 }
             }
             // every ordering of n distinct values (positions matter to a sampler, values to the law)
@@ -214,19 +228,28 @@ pub fn run(run: &mut Run) {
                 permutations(&mut perm, 0, &mut all);
                 for values in all {
                     if !full || n >= 4 {
-                        cases.push(Case { values, k });
+                        cases.push(Case { values, k, ctor: 0 });
                     }
                 }
             }
             if !full {
                 for values in family(n) {
-                    cases.push(Case { values, k });
+                    cases.push(Case { values, k, ctor: 0 });
                 }
             }
         }
     }
     cases.sort_by(|a, b| (a.values.len(), a.k, &a.values).cmp(&(b.values.len(), b.k, &b.values)));
     cases.dedup_by(|a, b| a.values == b.values && a.k == b.k);
+    // the other constructors (const-generic size, binary) on the populations of up to 4
+    let mut more = vec![];
+    for c in cases.iter().filter(|c| c.values.len() <= 4) {
+        more.push(Case { values: c.values.clone(), k: c.k, ctor: 1 });
+        if c.k == 2 {
+            more.push(Case { values: c.values.clone(), k: 2, ctor: 2 });
+        }
+    }
+    cases.extend(more);
     let results = mcx::par_map(cases.len(), |i| tournament_case(&cases[i]));
     let mut nontrivial = 0u64;
     for (i, (leaves, cps, v, outcomes)) in results.into_iter().enumerate() {
@@ -239,7 +262,7 @@ pub fn run(run: &mut Run) {
             if k.starts_with("machinery/") {
                 run.machinery(w);
             } else {
-                run.violation(k, w, json!({"check":"C07","scenario":"tournament","values":cases[i].values,"k":cases[i].k}));
+                run.violation(k, w, json!({"check":"C07","scenario":"tournament","values":cases[i].values,"k":cases[i].k,"ctor":cases[i].ctor}));
             }
         }
     }
@@ -248,7 +271,7 @@ pub fn run(run: &mut Run) {
     run.transitions += bw;
     run.traces_validated = run.evaluations;
     run.distinct_nontrivial = nontrivial;
-    run.rule = "every population of size 1..n over 3 values (ties included) x every tournament size; all grid word sequences explored on the real Tournament::select; the accumulated winner-value law is compared, as exact rationals, with [C(#<=v,k)-C(#<v,k)]/C(n,k); non-trivial = (population, k) scenarios whose law has more than one outcome".into();
+    run.rule = "every population of size 1..n over 3 values (ties included) x every tournament size (Tournament::new; for n <= 4 also of_size::<K>() and binary()); all grid word sequences explored on the real Tournament::select; the accumulated winner-value law is compared, as exact rationals, with [C(#<=v,k)-C(#<v,k)]/C(n,k); non-trivial = (population, k) scenarios whose law has more than one outcome".into();
     run.bound("max_population", json!(max_n));
     run.bound("tournament_sizes", json!("every k with lcm(1..n)^k executions within the per-case budget (3e5 quick, 2e7 thorough); full population product for n<=4, n=5 k<=3 (thorough n=6 k<=2); all orderings of distinct values for n<=5; a 9-member population family otherwise"));
     run.bound("best_worst_population_sizes", json!("1..=6"));
@@ -266,7 +289,7 @@ pub fn replay(v: &Value) -> bool {
     match v["scenario"].as_str() {
         Some("tournament") => {
             let k = v["k"].as_u64().unwrap_or(1) as usize;
-            let (leaves, _, viol, _) = tournament_case(&Case { values: values.clone(), k });
+            let (leaves, _, viol, _) = tournament_case(&Case { values: values.clone(), k, ctor: v["ctor"].as_u64().unwrap_or(0) as u8 });
             println!("tournament of size {k} on values {values:?}: {leaves} executions explored");
             match viol {
                 Some((key, w)) => {
